@@ -1,9 +1,165 @@
-import SpVerif.Model.RTree
+import SpVerif.Lemmas.RTree
+/-!
+# C03 — R-tree queries return exactly the intersecting / covered boxes
+
+Theorems about the page-tree model `RTree` of `spatialindex/rtree.py`.  They hold for **every** tree shape (`PTree`) and in
+particular for `buildTree ps sorted` with every page size `ps ≥ 1` and every arrangement `sorted` of the rows — the
+Hilbert order for any `p` is one such arrangement, which is how independence of `p` is obtained.  Rows with undefined (NaN)
+bounds are left out of the tree by `_build_hilbert_rtree` (the fix for D1), so they are never reported.
+`WF`: a row's box has min ≤ max in every dimension (true of every bounding box).
+-/
 namespace SpVerif
 open RTree
+
+/-- **intersects** returns each row whose box overlaps the closed query box exactly once, and no other row -/
+theorem C03_intersects_exact (d : Nat) (t : PTree) (q : NBox) (hw : ∀ r ∈ t.rows, WF d r.2) :
+    (intersects d t q).Perm ((t.rows.filter (fun r => !outside d q r.2)).map (·.1)) := by
+  obtain ⟨_, h2⟩ := query_spec d q t hw
+  unfold intersects
+  simp only
+  rw [← List.map_append]
+  exact List.Perm.map _ h2
+
+theorem inside_imp_overlap {d : Nat} {q : NBox} {r : Row} (hw : WF d r.2) (h : inside d q r.2 = true) :
+    (!outside d q r.2) = true := by simp [inside_not_outside hw h]
+
+/-- **covers_overlaps** splits exactly that set into the rows fully inside the query box and those only partially inside -/
+theorem C03_covers_overlaps_exact (d : Nat) (t : PTree) (q : NBox) (hw : ∀ r ∈ t.rows, WF d r.2) :
+    (coversOverlaps d t q).1.Perm ((t.rows.filter (fun r => inside d q r.2)).map (·.1)) ∧
+    (coversOverlaps d t q).2.Perm ((t.rows.filter (fun r => !outside d q r.2 && !inside d q r.2)).map (·.1)) := by
+  obtain ⟨h1, h2⟩ := query_spec d q t hw
+  have hsub : ∀ r ∈ (query d q t).2, WF d r.2 := by
+    intro r hr
+    have : r ∈ (query d q t).1 ++ overlapping d q (query d q t).2 ∨ True := Or.inr trivial
+    -- rows in the maybe list are rows of the tree
+    have hmem : ∀ (t : PTree), ∀ r ∈ (query d q t).2, r ∈ t.rows := by
+      intro t
+      induction t with
+      | leaf rs =>
+        intro r hr
+        simp only [query] at hr
+        split at hr
+        · simp at hr
+        · split at hr
+          · simp at hr
+          · split at hr
+            · simp at hr
+            · simpa [PTree.rows] using hr
+      | node l r ihl ihr =>
+        intro x hx
+        simp only [query] at hx
+        split at hx
+        · simp at hx
+        · split at hx
+          · simp at hx
+          · split at hx
+            · simp at hx
+            · simp only [List.mem_append] at hx
+              rcases hx with hx | hx
+              · simp [PTree.rows, ihl x hx]
+              · simp [PTree.rows, ihr x hx]
+    exact hw r (hmem t r hr)
+  unfold coversOverlaps
+  simp only
+  constructor
+  · rw [← List.map_append]
+    apply List.Perm.map
+    have hf := List.Perm.filter (fun r => inside d q r.2) h2
+    simp only [overlapping, List.filter_append, List.filter_filter] at hf
+    have e1 : (query d q t).1.filter (fun r => inside d q r.2) = (query d q t).1 := by
+      rw [List.filter_eq_self]; exact h1
+    have e2 : (query d q t).2.filter (fun a => inside d q a.2 && !outside d q a.2) = (query d q t).2.filter (fun r => inside d q r.2) := by
+      apply List.filter_congr
+      intro r hr
+      cases hi : inside d q r.2 with
+      | false => rfl
+      | true => simp [inside_not_outside (hsub r hr) hi]
+    have e3 : t.rows.filter (fun a => inside d q a.2 && !outside d q a.2) = t.rows.filter (fun r => inside d q r.2) := by
+      apply List.filter_congr
+      intro r hr
+      cases hi : inside d q r.2 with
+      | false => rfl
+      | true => simp [inside_not_outside (hw r hr) hi]
+    rw [e1, e2, e3] at hf
+    exact hf
+  · apply List.Perm.map
+    have hf := List.Perm.filter (fun r => !inside d q r.2) h2
+    simp only [overlapping, List.filter_append, List.filter_filter] at hf
+    have e1 : (query d q t).1.filter (fun r => !inside d q r.2) = [] := by
+      rw [List.filter_eq_nil_iff]; intro r hr; simp [h1 r hr]
+    rw [e1, List.nil_append] at hf
+    have e2 : (query d q t).2.filter (fun r => !(outside d q r.2 || inside d q r.2)) = (query d q t).2.filter (fun a => !inside d q a.2 && !outside d q a.2) := by
+      apply List.filter_congr
+      intro r _
+      cases outside d q r.2 <;> cases inside d q r.2 <;> rfl
+    have e3 : t.rows.filter (fun r => !outside d q r.2 && !inside d q r.2) = t.rows.filter (fun a => !inside d q a.2 && !outside d q a.2) := by
+      apply List.filter_congr
+      intro r _
+      cases outside d q r.2 <;> cases inside d q r.2 <;> rfl
+    rw [e2, e3]
+    exact hf
+
+/-! ### the tree that is actually built holds exactly the given rows -/
+
+theorem build_rows (ps : Nat) (k : Nat) (rs : List Row) : (build ps k rs).rows = rs.take (2 ^ k * ps) := by
+  induction k generalizing rs with
+  | zero => simp [build, PTree.rows]
+  | succ k ih =>
+    simp only [build, PTree.rows, ih]
+    rw [List.take_take, List.take_drop]
+    have e : 2 ^ (k + 1) * ps = 2 ^ k * ps + 2 ^ k * ps := by rw [Nat.pow_succ]; rw [Nat.mul_assoc, Nat.mul_comm 2 ps, ← Nat.mul_assoc]; omega
+    rw [e, Nat.min_self]
+    conv => rhs; rw [← List.take_append_drop (2 ^ k * ps) (rs.take (2 ^ k * ps + 2 ^ k * ps))]
+    congr 1
+    all_goals first
+      | (rw [List.take_take]; congr 1 <;> omega)
+      | (rw [List.drop_take]; congr 1 <;> omega)
+
+theorem le_two_pow_clog2 (m : Nat) : m ≤ 2 ^ clog2 m := by
+  unfold clog2
+  split
+  · have := Nat.two_pow_pos 0; omega
+  · have := @Nat.lt_log2_self (m - 1)
+    omega
+
+theorem buildTree_rows (ps : Nat) (hps : 1 ≤ ps) (sorted : List Row) : (buildTree ps sorted).rows = sorted := by
+  unfold buildTree
+  rw [build_rows]
+  apply List.take_of_length_le
+  have h1 := le_two_pow_clog2 (numPages sorted.length ps)
+  have h2 : sorted.length ≤ numPages sorted.length ps * ps := by
+    unfold numPages
+    have := Nat.div_add_mod (sorted.length + ps - 1) ps
+    have := Nat.mod_lt (sorted.length + ps - 1) (by omega : ps > 0)
+    rw [Nat.mul_comm]
+    omega
+  calc sorted.length ≤ numPages sorted.length ps * ps := h2
+    _ ≤ 2 ^ clog2 (numPages sorted.length ps) * ps := Nat.mul_le_mul_right ps h1
+
+/-- **the answer does not depend on the curve order `p` (any arrangement of the rows) or on the page size** -/
+theorem C03_param_independent (d : Nat) (ps₁ ps₂ : Nat) (h₁ : 1 ≤ ps₁) (h₂ : 1 ≤ ps₂) (s₁ s₂ : List Row) (hp : s₁.Perm s₂)
+    (hw : ∀ r ∈ s₁, WF d r.2) (q : NBox) :
+    (intersects d (buildTree ps₁ s₁) q).Perm (intersects d (buildTree ps₂ s₂) q) := by
+  have hw₂ : ∀ r ∈ s₂, WF d r.2 := fun r hr => hw r (hp.symm.subset hr)
+  have a := C03_intersects_exact d (buildTree ps₁ s₁) q (by rw [buildTree_rows ps₁ h₁]; exact hw)
+  have b := C03_intersects_exact d (buildTree ps₂ s₂) q (by rw [buildTree_rows ps₂ h₂]; exact hw₂)
+  rw [buildTree_rows ps₁ h₁] at a
+  rw [buildTree_rows ps₂ h₂] at b
+  exact a.trans ((List.Perm.map _ (List.Perm.filter _ hp)).trans b.symm)
+
+/-- **total_bounds** is NaN iff the tree holds no row; otherwise it contains every row's box -/
+theorem C03_total_bounds (d : Nat) (t : PTree) :
+    match totalBounds d t with
+    | none => t.rows = []
+    | some b => ∀ r ∈ t.rows, Sub d r.2 b := box_spec d t
+
 /-- a tree without rows has an absent root: `total_bounds` is NaN -/
 theorem C03_empty_total_bounds (d ps k : Nat) : totalBounds d (build ps k []) = none := by
   induction k with
   | zero => simp [totalBounds, build, PTree.box]
   | succ k ih => simp [totalBounds, build, PTree.box, unionOpt] at *; simp [ih]
+
+/-! non-vacuity: three well-formed 2-d rows, page size 1 (depth 2), a query touching a row edge -/
+example : intersects 2 (buildTree 1 [(0, [0,0,1,1]), (1, [2,2,3,3]), (2, [0,2,1,5])]) [1,1,2,2] = [0, 1, 2] := by decide
+
 end SpVerif
